@@ -111,24 +111,45 @@ func runC04(p *Program, r *Report) {
 	c04Slots(p, r)
 }
 
+// mentions: which of the constants occur in f, in the function literals it creates, and in the module functions it
+// hands on as values or still calls (a predicate passed to slices.IndexFunc, a helper that was not inlined).
 func mentions(f *ssa.Function, consts ...string) map[string]bool {
 	out := map[string]bool{}
-	for _, b := range f.Blocks {
-		for _, in := range b.Instrs {
-			for _, op := range in.Operands(nil) {
-				if op == nil || *op == nil {
-					continue
-				}
-				if s, ok := constString(*op); ok {
-					for _, c := range consts {
-						if s == c {
-							out[c] = true
+	seen := map[*ssa.Function]bool{}
+	var visit func(f *ssa.Function, depth int)
+	visit = func(f *ssa.Function, depth int) {
+		if f == nil || seen[f] || depth > 3 || len(f.Blocks) == 0 {
+			return
+		}
+		seen[f] = true
+		for _, b := range f.Blocks {
+			for _, in := range b.Instrs {
+				for _, op := range in.Operands(nil) {
+					if op == nil || *op == nil {
+						continue
+					}
+					if s, ok := constString(*op); ok {
+						for _, c := range consts {
+							if s == c {
+								out[c] = true
+							}
+						}
+					}
+					switch g := (*op).(type) {
+					case *ssa.Function:
+						if g.Pkg != nil && g.Pkg == f.Pkg {
+							visit(g, depth+1)
+						}
+					case *ssa.MakeClosure:
+						if fn, ok := g.Fn.(*ssa.Function); ok {
+							visit(fn, depth+1)
 						}
 					}
 				}
 			}
 		}
 	}
+	visit(f, 0)
 	return out
 }
 
@@ -325,10 +346,16 @@ func c04Decode(p *Program, r *Report) {
 			continue
 		}
 		what := ""
+		var more []string
 		for _, rt := range Origins(callArgs(c)[0], nil) {
 			if rt.Kind == "call" && rt.Desc == fiberCtx+".Query" {
 				if s, ok := constString(callArgs(rt.Call)[0]); ok {
 					what = "query:" + s
+				} else if ss, ok := stringSet(p, callArgs(rt.Call)[0]); ok {
+					// one test applied to every name of a constant table
+					for _, s := range ss {
+						more = append(more, "query:"+s)
+					}
 				}
 			}
 			if (rt.Kind == "call" || rt.Kind == "via") && (rt.Desc == "net/url.PathUnescape" || rt.Desc == "net/url.QueryUnescape") {
@@ -336,6 +363,9 @@ func c04Decode(p *Program, r *Report) {
 			}
 		}
 		vs = append(vs, vcall{ce, n, what})
+		for _, m := range more {
+			vs = append(vs, vcall{ce, n, m})
+		}
 	}
 	want := map[string]string{"path": "backend.IsOpaquePath", "query:versionId": "backend.IsOpaqueId", "query:uploadId": "backend.IsOpaqueId", "query:bucket": "backend.IsOpaqueId"}
 	keys := make([]string, 0, len(want))
